@@ -776,7 +776,7 @@ spifconf_find_file(const spif_charptr_t file, const spif_charptr_t dir, const sp
     }
 
     for (path = pathlist; path && *path != '\0'; path = p) {
-        short n;
+        long n;
 
         /* Calculate the length of the next directory in the path */
         if ((p = (spif_charptr_t)strchr((char *)path, ':'))) {
